@@ -7,6 +7,7 @@ import (
 	"testing"
 	gotime "time"
 
+	"github.com/jotaen/klog/klog/app"
 	"github.com/jotaen/klog/klog/parser"
 	"pgregory.net/rapid"
 	"verifharness/evid"
@@ -22,6 +23,7 @@ type caseC05 struct {
 	Missing bool   // the target file does not exist
 	Env     model.Env
 	Cmd     model.Cmd
+	ViaMain bool `json:",omitempty"` // through klog's real entry point (flag parsing, exit code mapping, real clock)
 }
 
 var badEntryTexts = [][]string{{"hello"}, {"25:00-26:00"}, {"1h60m"}, {" 1h"}, {"\t1h"}, {"2020-01-01"}, {"8:00 - ?"}, {"9:00-8:00"}, {"1h", " "},
@@ -72,6 +74,7 @@ func genC05(t *rapid.T, _ *evid.Rec) caseC05 {
 		c.Cmd.Entry = nil
 		c.Cmd.Raw = model.Texts(rapid.SampledFrom(badEntryTexts).Draw(t, "badEntryText")...)
 	}
+	c.ViaMain = rapid.IntRange(0, 3).Draw(t, "viaMain") == 0
 	return c
 }
 
@@ -109,9 +112,22 @@ func checkC05(c caseC05) (Outcome, error) {
 				crashed = fmt.Sprint(r)
 			}
 		}()
+		if c.ViaMain {
+			// all-or-nothing does not depend on the clock, so the real one (which Run uses) is fine
+			code, rerr, _ := h.RunMain(Argv(c.Cmd, file), len(c.Cmd.Ticks))
+			if code != 0 {
+				res.Err = app.NewErrorWithCode(app.Code(code), fmt.Sprint(rerr), "", nil)
+			} else if rerr != nil {
+				res.Err = app.NewErrorWithCode(app.Code(0), fmt.Sprint(rerr), "", nil) // an error with exit status 0: reported below
+			}
+			return ""
+		}
 		res, ierr = h.RunCmd(c.Cmd, file)
 		return ""
 	}()
+	if c.ViaMain {
+		out.Label("via-klog.Run")
+	}
 	if crashed != "" {
 		out.Label("crash-treated-as-failure")
 		after, exists := h.ReadFile("f.klg")
